@@ -259,6 +259,11 @@ class MapStreamSpec(SeqSpec):
                 "    || ParMapMatcherComplete.MSC.ms_ws_converged (fun x => x * 3 + 7) cf evs.")
     checkers = {"M": "chk", "sorted-buffer-matcher": "chk_sorted", "rejections-certified": "chk_cert"}
     informational = {"sorted-buffer-matcher", "rejections-certified"}
+    # C08 looks at faults: most of its scenarios cancel per-call contexts / fail callbacks and sources
+    fault_bias = False
+
+    def __init__(self, fault_bias=False):
+        self.fault_bias = fault_bias
 
     def gen_one(self, rng):
         while True:
@@ -271,6 +276,9 @@ class MapStreamSpec(SeqSpec):
                 break
         cfg["fgated"] = gated
         mode = rng.choice(["plain", "plain", "ferr", "ferr", "serr", "close", "close", "nextctx", "parent", "mix"])
+        if self.fault_bias and mode in ("plain", "close"):
+            # an expired per-call context while results are (or are not yet) buffered, then the consumer goes on
+            mode = rng.choice(["nextctx", "nextctx", "mix", "ferr", "serr"])
         ferr = []
         if mode in ("ferr", "mix") and n > 0:
             ferr = sorted(rng.sample(range(n), min(n, rng.choice([1, 1, 2]))))
